@@ -133,7 +133,30 @@ def repo_lib_hash():
 # translation + Coq build
 # ---------------------------------------------------------------------------------
 def translate():
-    """regenerate coq/gen from /repo's working tree; returns (report dict, log)"""
+    """coq/gen as a function of /repo's working tree; returns (report dict, log).  The translators are run unless the
+    content hash of /repo/lib and of the translators themselves is the one recorded by the previous run AND every
+    generated file still has the content that run produced (so the generated files are always those of the source as it
+    is now; re-running the fourteen clang invocations for an unchanged tree would only cost time and touch file dates)."""
+    gdir = os.path.join(COQ, 'gen')
+    stamp = os.path.join(gdir, '.translate_stamp.json')
+    key = hashlib.sha256((repo_lib_hash() + tree_hash(sorted(glob.glob(os.path.join(VERIF, 'tools', '*.py'))) + [os.path.join(VERIF, 'vlib', 'core.py')])).encode()).hexdigest()
+    try:
+        st = json.load(open(stamp))
+        if st.get('key') == key and st.get('files') and all(os.path.exists(os.path.join(gdir, f)) and hashlib.sha256(open(os.path.join(gdir, f), 'rb').read()).hexdigest() == h for f, h in st['files'].items()):
+            return st['report'], 'generated files are those of this source tree (content hash unchanged since they were produced)'
+    except Exception:
+        pass
+    rep, log = translate_now()
+    try:
+        files = {os.path.basename(f): hashlib.sha256(open(f, 'rb').read()).hexdigest() for f in glob.glob(os.path.join(gdir, '*.v'))}
+        json.dump({'key': key, 'files': files, 'report': rep}, open(stamp, 'w'))
+    except Exception:
+        pass
+    return rep, log
+
+
+def translate_now():
+    """run every translator on /repo's working tree"""
     rc, out = sh([sys.executable, os.path.join(VERIF, 'tools', 'cxx2coq.py'), '--repo', REPO,
                   '--out', os.path.join(COQ, 'gen')], timeout=300)
     rep = json.load(open(os.path.join(COQ, 'gen', 'gen_report.json')))
